@@ -82,6 +82,8 @@ class VTcpSocket(object):
         self._net.listeners[self._bound] = self
 
     def accept(self):
+        if self._closed:
+            raise OSError(errno.EBADF, 'Bad file descriptor')
         if not self._accept_q:
             raise BlockingIOError(errno.EAGAIN, 'Resource temporarily unavailable')
         conn = self._accept_q.pop(0)
@@ -110,6 +112,9 @@ class VTcpSocket(object):
         self._closed = True
         if self._bound is not None and self._net.listeners.get(self._bound) is self:
             del self._net.listeners[self._bound]
+        # connections still waiting to be accepted are reset, as the operating system does
+        while self._accept_q:
+            self._accept_q.pop(0).ends[1].close()
 
 
 class TcpSocketModule(object):
